@@ -143,6 +143,9 @@ type sysC struct {
 type config struct {
 	name       string
 	initial    string // initial binding of aX
+	// alias: every request dials "alias:aX", a string that resolves to aX but
+	// is not the canonical form of the address (like a host name)
+	alias bool
 	dialaddr   bool
 	dialtpt    bool
 	estlink    bool
@@ -163,6 +166,13 @@ func (s *sysC) name(p peer.ID) string {
 		return "-"
 	}
 	return "?" + p.String()
+}
+
+func (s *sysC) dialStr() string {
+	if s.cfg.alias {
+		return "alias:aX"
+	}
+	return "aX"
 }
 
 func (s *sysC) dialerOpts(addr string) *dialer.DialerOpts {
@@ -193,7 +203,7 @@ func newSysC(cfg *config) *sysC {
 	}
 	s.lconn = s.sw.NewConn("aL")
 	s.sw.Bind("aL", s.lconn)
-	static := map[string]*dialer.DialerOpts{s.keys[1].ID.String(): s.dialerOpts("aX")}
+	static := map[string]*dialer.DialerOpts{s.keys[1].ID.String(): s.dialerOpts(s.dialStr())}
 	s.ctrl = transport_controller.NewController(le, b, controller.NewInfo("verif/c05/tpt", semver.MustParse("0.0.1"), "controller under test"), s.keys[0].ID, false,
 		func(ctx context.Context, le *logrus.Entry, pkey crypto.PrivKey, handler transport.TransportHandler) (transport.Transport, error) {
 			return qnet.NewTransport(ctx, le, pkey, s.lconn, handler, static)
@@ -295,7 +305,7 @@ func (s *sysC) Apply(ev string) {
 		s.dialYBusy = true
 		s.dialYN++
 		go func() {
-			lnk, err := s.ctrl.DialPeerAddr(s.ctx, y, s.dialerOpts("aX"))
+			lnk, err := s.ctrl.DialPeerAddr(s.ctx, y, s.dialerOpts(s.dialStr()))
 			if err == nil && lnk != nil && lnk.GetRemotePeer() != y {
 				s.note("success-for-y-carries-link-to-other-peer/DialPeerAddr :: DialPeerAddr(Y, aX) returned a link to %s", s.name(lnk.GetRemotePeer()))
 			}
@@ -309,7 +319,7 @@ func (s *sysC) Apply(ev string) {
 		s.dialGen++
 		gen := s.dialGen
 		go func() {
-			lnk, err := s.ctrl.DialPeerAddr(s.ctx, x, s.dialerOpts("aX"))
+			lnk, err := s.ctrl.DialPeerAddr(s.ctx, x, s.dialerOpts(s.dialStr()))
 			s.mu.Lock()
 			cur := gen == s.dialGen
 			s.mu.Unlock()
@@ -336,7 +346,7 @@ func (s *sysC) Apply(ev string) {
 	case "dialtpt+":
 		linked := len(s.ctrl.GetPeerLinks(x)) > 0
 		o := &observer{kind: "DialTptAddr", s: s, cur: map[uint32]peer.ID{}}
-		_, ref, err := s.bus.AddDirective(tptaddr.NewDialTptAddr(s.dialerOpts(qnet.TransportType+"|aX"), s.keys[0].ID, x), o)
+		_, ref, err := s.bus.AddDirective(tptaddr.NewDialTptAddr(s.dialerOpts(qnet.TransportType+"|"+s.dialStr()), s.keys[0].ID, x), o)
 		if err != nil {
 			s.broken = "AddDirective: " + err.Error()
 			return
@@ -541,6 +551,8 @@ func TestC05(t *testing.T) {
 		{config{name: "DialPeerAddr(X,aX); aX initially served by the impostor Y", initial: "Y", dialaddr: true}, 6, 9},
 		{config{name: "EstablishLinkWithPeer(X) with static dialer map; aX initially served by the impostor Y", initial: "Y", estlink: true}, 6, 9},
 		{config{name: "DialTptAddr(X,aX); aX initially served by the impostor Y", initial: "Y", dialtpt: true}, 6, 9},
+		{config{name: "EstablishLinkWithPeer(X) + DialPeerAddr, dial string is an alias of aX (not its canonical form); aX initially served by X", initial: "X", estlink: true, dialaddr: true, alias: true}, 5, 7},
+		{config{name: "DialPeerAddr(X) and DialPeerAddr(Y) through an alias of aX; aX initially served by Y", initial: "Y", dialaddr: true, alias: true}, 5, 7},
 		{config{name: "all three request kinds; aX initially unbound", initial: "-", dialaddr: true, dialtpt: true, estlink: true}, 4, 6},
 		{config{name: "EstablishLinkWithPeer(X) + DialPeerAddr with a constant 1 s dial back-off; aX initially served by Y", initial: "Y", estlink: true, dialaddr: true, constantBO: true}, 4, 6},
 	}
